@@ -40,6 +40,15 @@ ASSUMPTIONS = [
     "span test for random cases: against a harness reference basis (Arnoldi with two full re-orthogonalisation "
     "passes in complex128) for the first <= 6 (float64) / <= 4 (float32) Krylov spaces only",
     "start vectors are non-zero; v and A have the same dtype",
+    "exact-breakdown family (attr exact=true): Hermitian operators / start vectors with small integer entries for "
+    "which TLC computes the Arnoldi (= Lanczos) factorisation exactly over Q(i) and certifies that it is exact in "
+    "binary floating point (Krylov!ExactArnoldiOK: dyadic entries, perfect-square norms, zero residual exactly at "
+    "KDim).  For these the column count min(max_iters, n, KDim), finiteness, exhaustion clauses and the factorisation "
+    "itself (clause exact_oracle: Q, T equal TLC's exact matrices) are asserted for EVERY tol >= 0, in particular "
+    "tol = 0, in every dtype, single and batched; the recorded loop must evaluate exactly MC_Krylov's test "
+    "'residual # 0' (Trace_LoopControl, field kd).  Beyond the catalog (source=struct, n <= 200: symmetric "
+    "permutations, diagonal, identity, Hermitian block diagonal; coordinate / constant dyadic starts) the same "
+    "arithmetic argument holds by construction and KDim is the orbit length / block size",
 ]
 _REC = None
 
@@ -57,7 +66,7 @@ def regime(m, n):
 
 
 def check_single(A, v, Qd, Td, m, tol, dt, kdim, detectable, K=None, spec=None, eigA=None, assert_count=True,
-                 hs=None):
+                 hs=None, X=None):
     """Property clauses on one (Q, T).  Returns list of (clause, detail, extra attrs)."""
     out = []
     n = A.shape[0]
@@ -122,6 +131,16 @@ def check_single(A, v, Qd, Td, m, tol, dt, kdim, detectable, K=None, spec=None, 
     d = float(np.abs(R[:, :-1]).max(initial=0.0))
     if d > rt * sA:
         out.append(("relation", f"max|(A Q - Q T)[:, :-1]| = {kf.fmt(d)} (||A||={kf.fmt(sA)})", {"which": "residual"}))
+    # exact-breakdown family: the factorisation itself is known exactly (TLC: Krylov!ExactArnoldi; for Hermitian A
+    # the exact Hessenberg matrix is the Lanczos tridiagonal matrix)
+    if X is not None:
+        Qx, Hx = X
+        cx = min(cap, Qx.shape[1], ce)
+        dq = float(np.abs(Q[:, :cx] - Qx[:, :cx]).max())
+        dh = float(np.abs(T[:cx, :cx] - Hx[:cx, :cx]).max())
+        if dq > rt or dh > rt * sA:
+            out.append(("exact_oracle", f"leading {cx} columns of Q / block of T differ from the exact Lanczos "
+                        f"factorisation by {kf.fmt(dq)} / {kf.fmt(dh)}", {}))
     # span(Q[:, :j]) = K_j
     if K is not None:
         stol = 50 * rt
@@ -160,11 +179,11 @@ def dense_T(T, b=None):
     return np.diag(be) + np.diag(al, -1) + np.diag(ga, 1)
 
 
-def call_lanczos(A_op, v, m, tol, n, tag, api="lanczos"):
+def call_lanczos(A_op, v, m, tol, n, tag, api="lanczos", kd=0):
     from cola.linalg.decompositions.decompositions import Lanczos
     from cola.linalg.decompositions.lanczos import lanczos
     rec = recorder()
-    rec.meta = {"alg": "lanczos", "n": n, "m": m, "tol": tol, "tag": tag}
+    rec.meta = {"alg": "lanczos", "n": n, "m": m, "tol": tol, "tag": tag, "kd": kd}
     rec.on = True
     k0 = len(rec.traces)
     try:
@@ -184,10 +203,10 @@ def call_lanczos(A_op, v, m, tol, n, tag, api="lanczos"):
     return Q, T, info, tr
 
 
-def call_eigs(A_op, v, m, tol, n, tag):
+def call_eigs(A_op, v, m, tol, n, tag, kd=0):
     from cola.linalg.decompositions.lanczos import lanczos_eigs
     rec = recorder()
-    rec.meta = {"alg": "lanczos", "n": n, "m": m, "tol": tol, "tag": tag}
+    rec.meta = {"alg": "lanczos", "n": n, "m": m, "tol": tol, "tag": tag, "kd": kd}
     rec.on = True
     k0 = len(rec.traces)
     try:
@@ -254,7 +273,7 @@ def mk_viol(item, clause, detail, m, extra, n, kdim, batched, api, dt, tol):
     cap = min(m, n)
     at = {"dtype": dt, "n": n, "max_iters": m, "regime": regime(m, n), "tol": tol,
           "breakdown": bool(kdim is not None and kdim < cap), "batched": batched, "kdim": kdim, "api": api,
-          "source": item["src"]}
+          "source": item["src"], "exact": bool(item.get("exact"))}
     at.update(extra)
     case = f"{item['name']} {dt} m={m} tol={tol:g}{' batched' if batched else ''} {api}"
     rp = dict(item)
@@ -262,13 +281,18 @@ def mk_viol(item, clause, detail, m, extra, n, kdim, batched, api, dt, tol):
     return Violation(PROP, clause, case, at, detail, replay=rp)
 
 
-def run_family(item, A, vs, kdims, Ks, specs, eigA, detect_ok, ms, count_ok=True):
-    """vs: list of start vectors (1 -> single run, >1 -> one batched run).  Returns (violations, traces, n_checks)."""
+def run_family(item, A, vs, kdims, Ks, specs, eigA, detect_ok, ms, count_ok=True, Xs=None):
+    """vs: list of start vectors (1 -> single run, >1 -> one batched run).  Returns (violations, traces, n_checks).
+    Xs[b]: exact (Q, H) of the exact-breakdown family."""
     import cola
     dt, tol = item["dt"], item["tol"]
     n = A.shape[0]
     _, eps = kf.tol_of(dt)
-    detectable = detect_ok and tol >= 1e3 * eps
+    exact = bool(item.get("exact"))
+    # exact-breakdown family: the residual at KDim is the number 0.0, so the stop is visible for every tol >= 0
+    detectable = detect_ok and (tol >= 1e3 * eps or exact)
+    kd_tr = max(kdims) if exact else 0
+    Xs = list(Xs) if Xs is not None else [None] * len(vs)
     npd = kf.NPDT[dt]
     if not np.issubdtype(npd, np.complexfloating):
         A, vs = np.real(A), [np.real(x) for x in vs]
@@ -281,6 +305,9 @@ def run_family(item, A, vs, kdims, Ks, specs, eigA, detect_ok, ms, count_ok=True
     hss = []
     Ks = list(Ks)
     for b, x in enumerate(vs):
+        if exact:       # nothing to gate: every quantity of the run is an exact floating-point number
+            hss.append(None)
+            continue
         Kr, hs = kf.ref_for(A_t, x.astype(npd), kdims[b], n, jmax, thr, detect_ok)
         hss.append(hs if kdims[b] is not None else None)
         if Ks[b] is None:
@@ -292,18 +319,18 @@ def run_family(item, A, vs, kdims, Ks, specs, eigA, detect_ok, ms, count_ok=True
         try:
             if not batched:
                 v = vs[0].astype(npd)
-                Q, T, info, tr = call_lanczos(herm, v, m, tol, n, tag)
+                Q, T, info, tr = call_lanczos(herm, v, m, tol, n, tag, kd=kd_tr)
                 traces += tr
                 Qd, Td = np.asarray(Q.to_dense()), dense_T(T)
                 res, kd_eff, det_eff = check_single(A_t, v, Qd, Td, m, tol, dt, kdims[0], detectable, Ks[0], specs[0],
-                                                    eigA, assert_count=count_ok, hs=hss[0])
+                                                    eigA, assert_count=count_ok, hs=hss[0], X=Xs[0])
                 nchk += 1
                 for cl, de, ex in res:
                     viol.append(mk_viol(item, cl, de, m, ex, n, kdims[0], False, "lanczos", dt, tol))
                 count_bad = any(cl == "column_count" for cl, _, _ in res)
                 # lanczos_eigs on the same input
                 if item.get("eigs", True):
-                    ev, Vd, _, tr2 = call_eigs(herm, v, m, tol, n, tag + "|eigs")
+                    ev, Vd, _, tr2 = call_eigs(herm, v, m, tol, n, tag + "|eigs", kd=kd_tr)
                     traces += tr2
                     exh = (kd_eff is not None and kd_eff == kdims[0] and Td.shape[0] == kd_eff
                            and (det_eff or kd_eff == n) and not count_bad and count_ok)
@@ -313,7 +340,7 @@ def run_family(item, A, vs, kdims, Ks, specs, eigA, detect_ok, ms, count_ok=True
                         viol.append(mk_viol(item, cl, de, m, ex, n, kdims[0], False, "lanczos_eigs", dt, tol))
                 # the algorithm object gives the same factorisation
                 if item.get("alg_obj", False):
-                    Q2, T2, _, tr3 = call_lanczos(herm, v, m, tol, n, tag + "|obj", api="Lanczos")
+                    Q2, T2, _, tr3 = call_lanczos(herm, v, m, tol, n, tag + "|obj", api="Lanczos", kd=kd_tr)
                     traces += tr3
                     nchk += 1
                     Q2d, T2d = np.asarray(Q2.to_dense()), dense_T(T2)
@@ -324,7 +351,7 @@ def run_family(item, A, vs, kdims, Ks, specs, eigA, detect_ok, ms, count_ok=True
                                             "Lanczos", dt, tol))
             else:
                 V = np.stack([x.astype(npd) for x in vs], axis=1)      # (n, b)
-                Q, T, info, tr = call_lanczos(herm, V, m, tol, n, tag + "|batched")
+                Q, T, info, tr = call_lanczos(herm, V, m, tol, n, tag + "|batched", kd=kd_tr)
                 traces += tr
                 QA = np.asarray(Q.A)
                 nb = len(vs)
@@ -356,7 +383,7 @@ def run_family(item, A, vs, kdims, Ks, specs, eigA, detect_ok, ms, count_ok=True
                     kb = kdims[b]
                     keep = c if kb is None else min(c, kb, cap)
                     res, _, _ = check_single(A_t, V[:, b], QA[b][:, :keep], Td[:keep, :keep], m, tol, dt, kb, detectable,
-                                             Ks[b], specs[b], eigA, assert_count=False, hs=hss[b])
+                                             Ks[b], specs[b], eigA, assert_count=False, hs=hss[b], X=Xs[b])
                     for cl, de, ex in res:
                         ex = dict(ex)
                         ex["element"] = b
@@ -384,11 +411,21 @@ def observe(item):
             kd = [c["exp"]["kdim"] for c in cs]
             Ks = [kf.to_np(c["exp"]["K"], np.complex128) for c in cs]
             specs = [kf.spec_list(c["exp"]["spec"]) if c["hasEig"] else None for c in cs]
-            for c in cs:    # counts exported by TLC are what is asserted
+            exact = bool(item.get("exact"))
+            Xs = [kf.exact_np(c["exp"]) for c in cs] if exact else None
+            for b, c in enumerate(cs):    # counts exported by TLC are what is asserted
+                assert not exact or (c["exact"] and c["exp"]["exact"] and Xs[b][0].shape == (n, c["exp"]["kdim"]))
+                if exact and specs[b] is None:
+                    # excited spectrum = spectrum of TLC's exact projected matrix H[:KDim, :KDim]
+                    specs[b] = [complex(x) for x in np.linalg.eigvalsh(Xs[b][1][:-1, :])]
                 for e in c["exp"]["exp"]:
                     assert e["lcols"] == min(e["m"], n, c["exp"]["kdim"])
             eigA = np.linalg.eigvalsh(A)
-            return run_family(item, A, vs, kd, Ks, specs, eigA, True, list(range(1, n + kf.EXTRA + 1)))
+            return run_family(item, A, vs, kd, Ks, specs, eigA, True, list(range(1, n + kf.EXTRA + 1)), Xs=Xs)
+        if item["src"] == "struct":
+            A, vs, kd, wants = kf.struct_case(item)
+            specs = [None if w is None else [complex(x) for x in w] for w in wants]
+            return run_family(item, A, vs, kd, [None] * len(vs), specs, np.linalg.eigvalsh(A), True, item["ms"])
         return observe_random(item)
     except Exception as ex:  # noqa: BLE001
         info = common.exc_info(ex)
@@ -463,6 +500,57 @@ def default_object_check(seed):
 
 
 # ------------------------------------------------------------------------------------------------------
+def plan_exact(mat, lst, real, quick):
+    """Exact-breakdown family (TLC catalog, Hermitian members): every dtype with tol = 0 ("never stop early"), a
+    positive tol (quick tier: first and last dtype only), single runs, batches of equal KDim and mixed batches;
+    max_iters = 1..n+3 lies below / at / above KDim."""
+    items = []
+    for c in lst:
+        dts = ["f64", "f32", "c128", "c64"] if c["real"] else ["c128", "c64"]
+        for dt in dts:
+            for k, tol in enumerate([0.0, 1e-7 if dt in ("f64", "c128") else 1e-3]):
+                if quick and k == 1 and dt not in (dts[0], dts[-1]):
+                    continue
+                items.append({"src": "catalog", "name": c["name"], "cases": [c], "dt": dt, "tol": tol, "exact": True,
+                              "alg_obj": k == 0 and (not quick or dt == dts[0]), "eigs": True})
+    groups = {}
+    for c in lst:
+        groups.setdefault(c["exp"]["kdim"], []).append(c)
+    for dt in (["f64", "c64"] if real else ["c128"]):
+        for tol in (0.0, 1e-7 if dt != "c64" else 1e-3):
+            for kd, g in groups.items():
+                if len(g) >= 2:
+                    items.append({"src": "catalog", "name": f"{mat}:batch-kdim{kd}", "cases": g[:4], "dt": dt, "tol": tol,
+                                  "exact": True})
+            if len(groups) >= 2:
+                items.append({"src": "catalog", "name": f"{mat}:batch-mixed", "cases": lst[:5], "dt": dt, "tol": tol,
+                              "exact": True})
+    return items
+
+
+def plan_struct(quick):
+    """Exact-breakdown family beyond the catalog, Hermitian members: see kf.struct_case (quick tier: the positive tol
+    in the first dtype only)."""
+    items = []
+    for spec in kf.struct_specs():
+        if not spec["herm"]:
+            continue
+        n, kds = spec["n"], spec["kdims"]
+        ms = set()
+        for kd in kds:
+            ms |= {kd - 1, kd, kd + 1}
+        ms = sorted(x for x in ms | {1, n - 1, n, n + 3} if 1 <= x <= n + 3)
+        for dt in spec["dts"]:
+            for k, tol in enumerate([0.0, 1e-7 if dt in ("f64", "c128") else 1e-3]):
+                if quick and k == 1 and dt != spec["dts"][0]:
+                    continue
+                it = dict(spec)
+                it.update({"src": "struct", "dt": dt, "tol": tol, "ms": ms, "exact": True, "alg_obj": k == 0 and n <= 16,
+                           "eigs": n <= 64})
+                items.append(it)
+    return items
+
+
 def plan(cs, tier, seed):
     items = []
     herm = [c for c in cs if c["herm"]]
@@ -472,6 +560,9 @@ def plan(cs, tier, seed):
     quick = tier == "quick"
     for mat, lst in by_mat.items():
         real = all(c["real"] for c in lst)
+        if lst[0].get("exact"):
+            items += plan_exact(mat, lst, real, quick)
+            continue
         for c in lst:
             dts = (["f64", "c64", "f32", "c128"] if c["real"] else ["c128", "c64"])
             if quick:
@@ -496,6 +587,7 @@ def plan(cs, tier, seed):
         if len(groups) >= 2:
             dt = "f64" if real else "c128"
             items.append({"src": "catalog", "name": f"{mat}:batch-mixed", "cases": lst[:5], "dt": dt, "tol": 1e-7})
+    items += plan_struct(quick)
     # random families
     rng = np.random.RandomState(seed + 1400)
     sizes = [1, 2, 3, 5, 8, 13, 30, 64] if quick else [1, 2, 3, 4, 5, 6, 8, 11, 16, 24, 40, 64, 100, 150]
@@ -559,12 +651,8 @@ def run(tier):
         nchk += dk
         # trace validation (TLC): every recorded execution of the real loop against the skeleton
         cap_tr = 6000 if tier == "quick" else 40000
-        if len(traces) > cap_tr:
-            step = len(traces) / cap_tr
-            traces_v = [traces[int(i * step)] for i in range(cap_tr)]
-        else:
-            traces_v = traces
-        slim = [{k: t[k] for k in ("alg", "n", "m", "mb", "b", "evs", "buf", "fin")} for t in traces_v]
+        traces_v = kf.select_traces(traces, cap_tr)
+        slim = [{k: t[k] for k in kf.TRACE_KEYS} for t in traces_v]
         verdicts, tres, neg = kf.validate_traces(PROP, wd, slim)
         for k, t in enumerate(traces_v, start=1):
             vd = verdicts[k]
@@ -573,10 +661,11 @@ def run(tier):
                 n = t["n"]
                 viol.append(Violation(PROP, "control", f"{t['tag']}",
                                       {"dtype": dt, "n": n, "max_iters": t["m"], "regime": regime(t["m"], n),
-                                       "batched": t["b"] > 1, "trace_clause": vd["clause"], "api": "lanczos_fact"},
+                                       "batched": t["b"] > 1, "trace_clause": vd["clause"], "api": "lanczos_fact",
+                                       "tol": t.get("tol"), "exact": t["kd"] > 0},
                                       f"recorded loop execution rejected by Trace_LoopControl at event {vd['at']}: "
                                       f"{vd['clause']} (events {t['evs'][-3:]}, fin {t['fin']})",
-                                      replay={"trace": {k2: t[k2] for k2 in ("alg", "n", "m", "mb", "b", "evs", "buf", "fin")}}))
+                                      replay={"trace": {k2: t[k2] for k2 in kf.TRACE_KEYS}}))
     finally:
         common.cleanup(wd)
     viol, n_viol_raw = kf.cap_violations(viol)
@@ -590,7 +679,13 @@ def run(tier):
                 "distinct = (matrix, start vector(s), dtype, tol) work items, each swept over max_iters",
         "samples": samples, "exhaustive": False,
         "catalog_cases": stats["catalog_cases"], "catalog_hermitian_cases": len([c for c in cs if c["herm"]]),
-        "catalog_items": len(cat_items), "random_items": len(items) - len(cat_items),
+        "catalog_items": len(cat_items), "random_items": len([it for it in items if it["src"] == "random"]),
+        "exact_breakdown_catalog_cases": len([c for c in cs if c.get("exact") and c["herm"]]),
+        "exact_breakdown_items": len([it for it in items if it.get("exact")]),
+        "exact_breakdown_items_tol0": len([it for it in items if it.get("exact") and it["tol"] == 0]),
+        "exact_breakdown_struct_items": len([it for it in items if it["src"] == "struct"]),
+        "exact_traces_validated": len([t for t in traces_v if t.get("kd", 0) > 0]),
+        "exact_traces_validated_tol0": len([t for t in traces_v if t.get("kd", 0) > 0 and t.get("tol") == 0]),
         "mc_krylov_states": stats["mc_krylov_states"], "mc_loopcontrol_states": stats["mc_loopcontrol_states"],
         "violations_before_dedup_cap": n_viol_raw, "trace_states": tres.distinct, "traces_recorded": len(traces), "negative_controls_rejected": neg,
         "tlc_wall_s": stats["tlc_wall_s"] + round(tres.wall, 1),
